@@ -37,6 +37,7 @@ func init() {
 			c14ConnID(r)
 			c14FanOut(r)
 			c14Cleanup(r)
+			c14KindFollowsCommand(r)
 			c16SubscriberLoop(r)
 		},
 	})
